@@ -129,6 +129,8 @@ def _inj_work(args):
         acts = next((u["acts"].get(who[1:], []) for m in sc["markets"] if m["id"] == mid for u in m["updates"] if u["pt"] == pt), [])
         if len(acts) > 1:
             inj = {"who": who, "kind": "action", "market": mid, "pt": pt, "index": rng.randrange(1, len(acts))}
+    if inj["kind"] != "action" and random.Random("exc|%d|%d" % (seed, idx)).random() < 0.35:
+        inj["exc"] = "flumine"      # a FlumineException (the framework's own family takes the other except-branch of the callers)
     res["inj"] = inj
     a = simworld.Run(dict(copy.deepcopy(sc), inject=dict(inj, mode="skip"))).run()
     b = simworld.Run(dict(copy.deepcopy(sc), inject=dict(inj, mode="raise"))).run()
